@@ -46,6 +46,16 @@ def joinWith (sep : Nat) : List Str → Str
   | [f] => f
   | f :: fs => f ++ sep :: joinWith sep fs
 
+/-- prefix up to (excluding) the first element satisfying `p` -/
+def takeUntil (p : Nat → Bool) : Str → Str
+  | [] => []
+  | c :: cs => if p c then [] else c :: takeUntil p cs
+
+/-- suffix from (including) the first element satisfying `p` -/
+def dropUntil (p : Nat → Bool) : Str → Str
+  | [] => []
+  | c :: cs => if p c then c :: cs else dropUntil p cs
+
 /-! ## white space: the 29 code points for which `str.isspace()` is true (CPython 3.12) -/
 
 def isSpace (c : Nat) : Bool :=
